@@ -400,3 +400,211 @@ M.contract(P_PR + ':_SourceReader.apply',
                ArbitraryException: {},
            },
            raises_only=())
+
+
+# ====================================================================================== generic validator combinators
+# "first error wins; pre-sds validation runs the pre-sds part of every component, in order, and nothing of the
+# post-sds part" -- the combinators instructions build their validate_pre_sds from.
+from pyvc.interp import PyRaise
+from pyvc.values import wrap as _wrap
+from exactly_lib.type_val_deps.dep_variants.ddv import ddv_validators, ddv_validation
+from exactly_lib.type_val_deps.dep_variants.sdv import sdv_validation
+from exactly_lib.type_val_deps.validation_step import ValidationStep
+from exactly_lib.impls import svh_validators
+from exactly_lib.impls.exception import svh_exception
+
+P_DV = 'exactly_lib.type_val_deps.dep_variants.ddv.ddv_validators'
+P_DVN = 'exactly_lib.type_val_deps.dep_variants.ddv.ddv_validation'
+P_SVN = 'exactly_lib.type_val_deps.dep_variants.sdv.sdv_validation'
+P_SVH = 'exactly_lib.impls.svh_validators'
+
+# ghost monitor of one run of a conjunction (state in `ghost`):
+#   validators  the components;  step  'pre' / 'post': the validation step that is being run
+#   last        index of the component validated last (-1: none yet)
+#   error       the first error message (None: none yet) -- after an error no component may be validated
+
+
+def monitor_accepts_validation(ghost, idx):
+    return ghost['error'] is None and idx == ghost['last'] + 1
+
+
+def _validate_model(step):
+    def model(interp, self, args, kwargs):
+        st = interp.st
+        fn = interp.current_function_name()
+        g = st.ghost
+        if 'validators' in g:
+            if g['step'] != step:
+                st.oblige(fn + ' : monitor[%s-sds validation runs only the %s-sds part of its components]'
+                          % (g['step'], g['step']), False, {'kind': 'monitor'})
+                raise PyRaise(AssertionError('monitor'))
+            idx = getattr(self, '_pv_index', ())
+            if len(idx) != 1 or not self._pv_uid.startswith(g['validators'].uid + '[]'):
+                st.oblige(fn + ' : monitor[only components are validated]', False, {'kind': 'monitor'})
+                raise PyRaise(AssertionError('monitor'))
+            ok = interp.truth(interp.call(monitor_accepts_validation, [g, _wrap(idx[0])], {}))
+            st.oblige(fn + ' : monitor[components in order, none skipped, none after the first error]', ok,
+                      {'kind': 'monitor'})
+            st.assume(ok)
+            g['last'] = _wrap(idx[0])
+        st.emit('validate-' + step, self, tuple(args))
+        k = st.choose(3)
+        if k == 0:
+            st.emit('validate-%s:returned' % step, self, None)
+            return None
+        if k == 1:
+            r = Any_.make(interp, 'error_message')
+            g['error'] = r
+            st.emit('validate-%s:returned' % step, self, r)
+            return r
+        exc = ArbitraryException()
+        g['error'] = exc
+        st.emit('validate-%s:raised' % step, self, exc)
+        raise PyRaise(exc)
+
+    return model
+
+
+class ValidatorI(Interface):
+    """DdvValidator / SdvValidator: each part gives None or an error message (or raises)"""
+    methods = {'validate_pre_sds_if_applicable': Method(model=_validate_model('pre')),
+               'validate_post_sds_if_applicable': Method(model=_validate_model('post'))}
+
+
+def _conjunction_start(step):
+    def setup(interp, args, ghosts):
+        g = interp.st.ghost
+        g['validators'] = args['self'].validators
+        g['step'] = step
+        g['last'] = -1
+        g['error'] = None
+        return None
+
+    return setup
+
+
+for _qcls, _cls in ((P_DV + ':AndValidator', ddv_validators.AndValidator),
+                    (P_SVN + ':AndSdvValidator', sdv_validation.AndSdvValidator)):
+    for _method, _step in (('validate_pre_sds_if_applicable', 'pre'), ('validate_post_sds_if_applicable', 'post')):
+        M.contract('%s.%s' % (_qcls, _method),
+                   params=dict(self=Inst(_cls, validators=ListOf(Iface(ValidatorI))), hds=Any_, tcds=Any_,
+                               environment=Any_),
+                   setup=_conjunction_start(_step), returns=Opt(Any_),
+                   ensures={
+                       'None: every component validated (its part of this step only), in order, none failed':
+                           lambda self, result, ghost:
+                           result is not None or (ghost['error'] is None and ghost['last'] == len(self.validators) - 1),
+                       'error: the first one; no component is validated after it': lambda result, ghost:
+                       result is None or result is ghost['error'],
+                   },
+                   raises={ArbitraryException: {'ensures': lambda exc, ghost: exc is ghost['error']}},
+                   raises_only=())
+        M.loop('%s.%s' % (_qcls, _method), 0,
+               invariant=lambda _i, ghost: ghost['error'] is None and ghost['last'] == _i - 1,
+               modifies={'validator': 'local', 'result': 'local', 'ghost:last': Int})
+
+CONSTANT_DDV = Inst(ddv_validation.ConstantDdvValidator, _pre_sds_result=Opt(Any_), _post_sds_result=Opt(Any_))
+
+for _q, _empty in ((P_DV + ':all_of', ddv_validation.ConstantDdvValidator),
+                   (P_SVN + ':all_of', sdv_validation.ConstantSuccessSdvValidator)):
+    M.contract(_q, params=dict(validators=Union(FixedList(), FixedList(Iface(ValidatorI)),
+                                                FixedList(Iface(ValidatorI), Iface(ValidatorI)),
+                                                ListOf(Iface(ValidatorI), min_len=2))),
+               ghosts=dict(and_class=Const(ddv_validators.AndValidator if 'ddv' in _q else sdv_validation.AndSdvValidator),
+                           empty_class=Const(_empty)),
+               inline=True,
+               ensures={'success if empty, the validator if one, else the conjunction of exactly these':
+                        lambda validators, and_class, empty_class, result:
+                        (type(result) is empty_class and result.validate_pre_sds_if_applicable(None) is None
+                         and result.validate_post_sds_if_applicable(None) is None) if len(validators) == 0 else
+                        (result is validators[0] if len(validators) == 1 else
+                         (type(result) is and_class and result.validators is validators))},
+               raises_only=())
+
+
+# ----- single-component adapters: each runs exactly the corresponding part of what it wraps
+
+def _calls(trace, step):
+    return [e for e in trace if e[0] == 'validate-' + step]
+
+
+def _all_validation_calls(trace):
+    return [e for e in trace if e[0] in ('validate-pre', 'validate-post')]
+
+
+def _outcome(trace, step):
+    e = [e for e in trace if e[0] in ('validate-%s:returned' % step, 'validate-%s:raised' % step)][0]
+    return e[0].rpartition(':')[2], e[2]
+
+
+class PathEnvI(Interface):
+    """PathResolvingEnvironment(PreSds / PostSds / PreOrPostSds)"""
+    attrs = {'symbols': Any_, 'hds': Any_, 'sds': Any_}
+
+
+for _method, _step in (('validate_pre_sds_if_applicable', 'pre'), ('validate_post_sds_if_applicable', 'post')):
+    M.contract('%s:FixedPreOrPostSdsValidator.%s' % (P_SVN, _method),
+               ghosts=dict(step=Const(_step)),
+               params=dict(self=Inst(sdv_validation.FixedPreOrPostSdsValidator, _environment=Iface(PathEnvI),
+                                     _validator=Iface(ValidatorI))), returns=Opt(Any_),
+               ensures={
+                   'runs exactly that part of what it wraps, in its environment': lambda self, trace, step:
+                   [(e[0], e[1], e[2]) for e in _all_validation_calls(trace)]
+                   == [('validate-' + step, self._validator, (self._environment,))],
+                   'gives its verdict': lambda result, trace, step: _outcome(trace, step) == ('returned', result),
+               },
+               raises={ArbitraryException: {}}, raises_only=())
+    M.contract('%s:SingleStepSdvValidator.%s' % (P_SVN, _method),
+               ghosts=dict(step=Const(_step)),
+               params=dict(self=Inst(sdv_validation.SingleStepSdvValidator, step_to_apply=EnumOf(ValidationStep),
+                                     validator=Iface(ValidatorI)), environment=Iface(PathEnvI)), returns=Opt(Any_),
+               ensures={
+                   'runs that part of what it wraps iff it is the step to apply, else nothing (success)':
+                       lambda self, environment, result, trace, step:
+                       ([(e[0], e[1], e[2]) for e in _all_validation_calls(trace)]
+                        == [('validate-' + step, self.validator, (environment,))]
+                        and _outcome(trace, step) == ('returned', result))
+                       if self.step_to_apply is (ValidationStep.PRE_SDS if step == 'pre' else ValidationStep.POST_SDS)
+                       else (trace == [] and result is None),
+               },
+               raises={ArbitraryException: {}}, raises_only=())
+    M.contract('%s:ConstantDdvValidator.%s' % (P_DVN, _method),
+               ghosts=dict(step=Const(_step)),
+               params=dict(self=CONSTANT_DDV, hds=Any_, tcds=Any_), returns=Opt(Any_), inline=True,
+               ensures={'the constant of that step, no effect': lambda self, result, trace, step:
+               result is (self._pre_sds_result if step == 'pre' else self._post_sds_result) and trace == []},
+               raises_only=())
+    M.contract('%s:PreOrPostSdsSvhValidationErrorValidator.%s' % (P_SVH, _method),
+               ghosts=dict(step=Const(_step)),
+               params=dict(self=Inst(svh_validators.PreOrPostSdsSvhValidationErrorValidator,
+                                     validator=Iface(ValidatorI)), environment=Iface(PathEnvI)),
+               returns=c01.SVH,
+               ensures={
+                   'runs exactly that part of what it wraps': lambda self, environment, trace, step:
+                   [(e[0], e[1], e[2]) for e in _all_validation_calls(trace)]
+                   == [('validate-' + step, self.validator, (environment,))],
+                   'an error message is a VALIDATION_ERROR, none is success': lambda result, trace, step:
+                   c01.svh_kind(result) == (None if _outcome(trace, step)[1] is None else 'VALIDATION_ERROR')
+                   and result.failure_message is _outcome(trace, step)[1],
+               },
+               raises={ArbitraryException: {}}, raises_only=())
+
+
+class GetValidatorI(Interface):
+    """DdvValidatorResolver: symbols -> DdvValidator"""
+    methods = {'__call__': Method(returns=Iface(ValidatorI), may_raise=(_mk_arbitrary,), event='get-validator')}
+
+
+M.contract(P_SVN + ':SdvValidatorFromDdvValidator.validate_pre_sds_if_applicable',
+           params=dict(self=Inst(sdv_validation.SdvValidatorFromDdvValidator, _get_value_validator=Iface(GetValidatorI),
+                                 _hds=Const(None)), environment=Iface(PathEnvI)), returns=Opt(Any_),
+           ensures={
+               'the pre-sds part of the validator of the resolved value, on the home directories, and nothing else':
+                   lambda self, environment, result, trace:
+                   [e for e in trace if e[0] == 'get-validator'] == [('get-validator', self._get_value_validator,
+                                                                      (environment.symbols,))]
+                   and [(e[0], e[1], e[2]) for e in _all_validation_calls(trace)]
+                   == [('validate-pre', [e for e in trace if e[0] == 'get-validator:returned'][0][2],
+                        (environment.hds,))]
+                   and _outcome(trace, 'pre') == ('returned', result)},
+           raises={ArbitraryException: {}}, raises_only=())
